@@ -781,3 +781,41 @@ def is_recursive_copier(fnode):
       continue
     return False
   return True
+
+
+def all_match_form(e):
+  """Recognises "every element of X satisfies F" in its spellings.
+  Returns (F text, X ast, positive) or None:
+     all(map(F, X)) / all(F(x) for x in X) / all([F(x) for x in X])        -> positive
+     not any(not F(x) for x in X)  is handled by the caller's negation
+     any(not F(x) for x in X)                                                -> negative
+     next(itertools.filterfalse(F, X), S) is S   (S = None)                  -> positive;  `is not` -> negative"""
+  if isinstance(e, ast.Call) and isinstance(e.func, ast.Name) and e.func.id in ('all', 'any') and len(e.args) == 1 and not e.keywords:
+    a = e.args[0]
+    is_all = e.func.id == 'all'
+    if is_all and isinstance(a, ast.Call) and u(a.func) == 'map' and len(a.args) == 2:
+      return u(a.args[0]), a.args[1], True
+    if isinstance(a, (ast.GeneratorExp, ast.ListComp)) and len(a.generators) == 1 and not a.generators[0].ifs:
+      gen = a.generators[0]
+      elt = a.elt
+      neg = False
+      if isinstance(elt, ast.UnaryOp) and isinstance(elt.op, ast.Not):
+        elt, neg = elt.operand, True
+      if isinstance(elt, ast.Call) and len(elt.args) == 1 and not elt.keywords and u(elt.args[0]) == u(gen.target):
+        if is_all and not neg:
+          return u(elt.func), gen.iter, True
+        if not is_all and neg:
+          return u(elt.func), gen.iter, False
+    return None
+  if isinstance(e, ast.Compare) and len(e.ops) == 1 and isinstance(e.ops[0], (ast.Is, ast.IsNot)) and u(e.comparators[0]) == 'None':
+    n = e.left
+    if isinstance(n, ast.Call) and u(n.func) == 'next' and len(n.args) == 2 and u(n.args[1]) == 'None':
+      ff = n.args[0]
+      if isinstance(ff, ast.Call) and u(ff.func) in ('itertools.filterfalse', 'filterfalse') and len(ff.args) == 2:
+        return u(ff.args[0]), ff.args[1], isinstance(e.ops[0], ast.Is)
+      if isinstance(ff, ast.GeneratorExp) and len(ff.generators) == 1 and len(ff.generators[0].ifs) == 1:
+        c = ff.generators[0].ifs[0]
+        if isinstance(c, ast.UnaryOp) and isinstance(c.op, ast.Not) and isinstance(c.operand, ast.Call) and len(c.operand.args) == 1 \
+            and u(c.operand.args[0]) == u(ff.generators[0].target) and u(ff.elt) == u(ff.generators[0].target):
+          return u(c.operand.func), ff.generators[0].iter, isinstance(e.ops[0], ast.Is)
+  return None
